@@ -216,7 +216,7 @@ impl Message {
     /// [`body_beve`](MessageBuilder::body_beve) over a `Vec<T>`.
     pub fn decode_typed_slice<T: beve::BeveTypedSlice>(&self) -> Result<Vec<T>, RepeError> {
         self.require_body_format(BodyFormat::Beve)?;
-        Ok(beve::read_typed_slice(&self.body)?)
+        Ok(read_typed_slice_compat(&self.body)?)
     }
 
     /// Decode a BEVE complex-array body into a `Vec<Complex<T>>` via a single
@@ -229,6 +229,9 @@ impl Message {
         &self,
     ) -> Result<Vec<beve::Complex<T>>, RepeError> {
         self.require_body_format(BodyFormat::Beve)?;
+        if is_generic_empty_array(&self.body) {
+            return Ok(Vec::new());
+        }
         Ok(beve::read_complex_slice(&self.body)?)
     }
 
@@ -248,6 +251,28 @@ impl Message {
             })
         }
     }
+}
+
+/// `true` if `body` is BEVE's *generic* encoding of an empty sequence (`05 00`).
+///
+/// serde has no element to pick a typed-array header from when a `Vec<T>` is
+/// empty, so `body_beve(&Vec::<T>::new())` emits the generic empty array for
+/// every `T`. The bulk decoders only accept typed-array headers, so without this
+/// check the one vector the serde and bulk paths encode differently, the empty
+/// one, would fail to cross-decode.
+pub(crate) fn is_generic_empty_array(body: &[u8]) -> bool {
+    body == [0x05, 0x00]
+}
+
+/// [`beve::read_typed_slice`] that also accepts the generic empty array, so a
+/// serde-encoded empty `Vec<T>` decodes as an empty slice of any element type.
+pub(crate) fn read_typed_slice_compat<T: beve::BeveTypedSlice>(
+    body: &[u8],
+) -> Result<Vec<T>, beve::Error> {
+    if is_generic_empty_array(body) {
+        return Ok(Vec::new());
+    }
+    beve::read_typed_slice(body)
 }
 
 /// Borrowing view over a serialized REPE message.
